@@ -207,9 +207,18 @@ def _run_pipelined(ctx):
     return res
 
 
+def _late(ctx):
+    """a transfer accepted under one login, a USER for another login, and only then the data connection"""
+    from props import late_common as LC
+
+    users, bases = LC.c03_users()
+    return LC.run_family(ctx, "C03", LC.c03_plans(ctx), lambda p: (users, bases, LC.C03_TREE, p, ["USER bob"]), LC.c03_oracle)
+
+
 def correspondence(ctx):
     r = _run(ctx, gen(ctx))
     r.merge(_run_pipelined(ctx))
+    r.merge(_late(ctx))
     return r
 
 
@@ -221,11 +230,23 @@ def search(ctx, prior):
             hist.insert(0, (inp.get("table", "anon"), inp["commands"]))
     r = _run(ctx, hist, compare=False)
     r.merge(_run_pipelined(ctx))
+    r.merge(_late(ctx))
     return r
 
 
 def replay(ctx, doc):
     inp = doc["failure"]["input"]
+    if "late_plan" in inp:
+        import latewire as LW
+        from props import late_common as LC
+
+        plan = [tuple(x) for x in inp["late_plan"]]
+        us, bases = LC.c03_users()
+        recs = LW.run_plan((us, bases, LC.C03_TREE, plan, ["USER bob"]))
+        f = LC.c03_oracle(plan, recs) if not isinstance(recs, str) else {"what": recs}
+        print("plan:", plan)
+        print("oracle:", f)
+        return f is not None
     users = S.USERS_ANON if inp.get("table", "anon") == "anon" else S.USERS_NOANON
     if inp.get("pipelined"):
         snap = S.run_pipelined(users, S.TREE, inp["commands"])
